@@ -7,7 +7,6 @@ import (
 	"errors"
 	"fmt"
 	"io"
-	"log"
 	"math"
 
 	"github.com/foxglove/mcap/go/mcap"
@@ -20,6 +19,8 @@ var (
 
 var (
 	ErrTooManyConnections = fmt.Errorf("bag contains connection ID > %d", math.MaxUint16)
+	// ErrNotABag is returned when the input does not start with the ROS bag magic.
+	ErrNotABag = errors.New("not a bag")
 )
 
 type BagOp byte
@@ -99,10 +100,10 @@ func processBag(
 		magic := make([]byte, len(BagMagic))
 		_, err := io.ReadFull(r, magic)
 		if err != nil {
-			log.Fatal(err)
+			return fmt.Errorf("failed to read bag magic: %w", err)
 		}
 		if !bytes.Equal(magic, BagMagic) {
-			log.Fatal("not a bag")
+			return ErrNotABag
 		}
 	}
 
